@@ -1,6 +1,7 @@
 """Models of str / list / set / dict methods (DESIGN §2.4)."""
 import z3
 
+from .types import PATH
 from .types import (INT, BOOL, STR, ANY, NONE, OptT, TupT, SeqT, SetT, DictT, ObjT,
                     sort_of, opt_none, opt_some, opt_is_none, opt_val, Ref)
 from .values import simp
@@ -27,6 +28,9 @@ def call_method(V, recv, name, args, kwargs, st, node):
         recv = strip_opt(recv)
     if isinstance(recv, SV) and recv.t == STR:
         return str_method(V, recv, name, args, kwargs, st, node)
+    if isinstance(recv, SV) and recv.t == PATH:
+        from . import paths
+        return paths.path_method(V, recv, name, args, kwargs, st, node)
     if isinstance(recv, (MList, MTup)) or (isinstance(recv, SV) and isinstance(recv.t, SeqT)):
         return seq_method(V, recv, name, args, kwargs, st, node)
     if isinstance(recv, SV) and isinstance(recv.t, DictT):
